@@ -131,6 +131,23 @@ theorem roundtrip_subexpr_partial (e : Expr) (hwf : WF e) (outer : Nat) (side : 
   obtain ⟨N, h⟩ := rts_self (rt e hwf) outer side k term rest hterm hk hpos hno hin
   exact ⟨N, h N (Nat.le_refl _)⟩
 
+/-- **roundtrip_comma_positions_partial.** Initialiser expressions (d76894a), array sizes (a83e0d0) and call arguments are
+printed at `(17, CommaList)` and read with the `Sequence` terminator (`parse_expression_no_seq`): in front of `,`, `;`,
+`]` or `)` the printed tokens read back as the tree — a comma expression there is printed in parentheses. -/
+theorem roundtrip_comma_positions_partial (e : Expr) (hwf : WF e) (t : Tok) (rest : List Tok)
+    (ht : Closes .Sequence t) :
+    (initPrec = 17 ∧ initSide = .CommaList ∧ arraySizePrec = 17 ∧ arraySizeSide = .CommaList ∧
+     callArgPrec = 17 ∧ callArgSide = .CommaList ∧ initTerminator = .Sequence ∧ arraySizeTerminator = .Sequence ∧
+     callArgTerminator = .Sequence) ∧
+    ∃ fuel, parseLvl fuel 15 .Sequence (toks (fmtSub e 17 .CommaList) ++ t :: rest) = some (e, t :: rest) := by
+  refine ⟨by decide, ?_⟩
+  apply roundtrip_subexpr_partial e hwf 17 .CommaList 15 .Sequence (t :: rest) (by decide) (Nat.le_refl _)
+  · intro hp
+    have := pos_arg e hp
+    exact ⟨by omega, fun h => by omega⟩
+  · exact noLow_closes 15 _ _ _ ht
+  · exact fun _ => inert_closes 15 _ _ _ ht
+
 /-! ## Literals -/
 
 /-- **literal_roundtrip_partial** (token level). Every non-negative integer literal of every kind (within the range
@@ -148,17 +165,24 @@ theorem literal_roundtrip_partial :
     (try intro hv) <;> simp [LitOk, litPieces, floatPieces, litTooLarge, *] <;> omega
 
 /-- **Negation for negative literals, all of them.** A negative 64-bit integer literal and a float literal with the
-sign bit set (other than zero) print as `-` followed by the non-negative literal — two tokens, which the parser reads
-as `UnaryOperation(Minus, …)`; negative zero prints as the token of positive zero. (Real code: known findings.) -/
+sign bit set — negative zero included since 1157dad — print as `-` followed by the non-negative literal: two tokens,
+which the parser reads as `UnaryOperation(Minus, …)`. (Real code: known findings.) -/
 theorem negative_literals_break :
     (∀ v, v ≠ 0 → (litPieces ⟨.IntSigned64, true, v⟩).map toks = some [.p .Minus, .lit ⟨.IntSigned64, false, v⟩]) ∧
-    (∀ bits q, eighths? 8 23 bits = some q → q ≠ 0 →
-      (litPieces ⟨.Float32, true, bits⟩).map toks = some [.p .Minus, .lit ⟨.Float32, false, bits⟩]) ∧
-    (litPieces ⟨.Float32, true, 0⟩).map toks = some [.lit ⟨.Float32, false, 0⟩] ∧
+    (∀ bits q, eighths? 8 23 bits = some q →
+      (litPieces ⟨.Float32, true, bits⟩).map toks = some [.p .Minus, .lit ⟨.Float32, false, bits⟩] ∧
+      (litPieces ⟨.Float16, true, bits⟩).map toks = some [.p .Minus, .lit ⟨.Float16, false, bits⟩]) ∧
+    (∀ bits q, eighths? 11 52 bits = some q →
+      (litPieces ⟨.FloatUntyped, true, bits⟩).map toks = some [.p .Minus, .lit ⟨.FloatUntyped, false, bits⟩] ∧
+      (litPieces ⟨.Float64, true, bits⟩).map toks = some [.p .Minus, .lit ⟨.Float64, false, bits⟩]) ∧
+    (litPieces ⟨.Float32, true, 0⟩).map toks = some [.p .Minus, .lit ⟨.Float32, false, 0⟩] ∧
     LitOk ⟨.IntSigned64, true, 5⟩ = false ∧ LitOk ⟨.Float32, true, 0⟩ = false := by
-  refine ⟨fun v hv => ?_, fun bits q h hq => ?_, ?_, ?_, ?_⟩
+  refine ⟨fun v hv => ?_, fun bits q h => ⟨?_, ?_⟩, fun bits q h => ⟨?_, ?_⟩, ?_, ?_, ?_⟩
   · simp [litPieces, hv, minusPiece]
-  · simp [litPieces, floatPieces, h, hq, minusPiece]
+  · simp [litPieces, floatPieces, h, minusPiece]
+  · simp [litPieces, floatPieces, h, minusPiece]
+  · simp [litPieces, floatPieces, h, minusPiece]
+  · simp [litPieces, floatPieces, h, minusPiece]
   · decide
   · decide
   · decide
